@@ -932,6 +932,55 @@ func fixHints(toks []string) []string {
 	return out
 }
 
+// ---------------------------------------------------------------- Go-side oracle: public send API with unusable arguments
+
+// A call of the public send API with an address that is not IPv4 or a MAC that is not 6 bytes must fail
+// without handing anything to the connection (and without a panic). Each deviation is reported as a viol record.
+func oracleBadArgs(r *lib.Run) {
+	session, conn := stdCfg().session()
+	h, err := arp_spoofer.New(session)
+	if err != nil {
+		return
+	}
+	defer func() { h.Close(); go session.Close() }()
+	m1, m2 := mac6(macs[0]), mac6(macs[1])
+	good := packet.Addr{MAC: m1, IP: ip4(ipA)}
+	bad := []struct {
+		name string
+		call func() error
+	}{
+		{"AnnounceTo(m2, netip.Addr{})", func() error { return h.AnnounceTo(m2, netip.Addr{}) }},
+		{"AnnounceTo(m2, fe80::1)", func() error { return h.AnnounceTo(m2, netip.MustParseAddr("fe80::1")) }},
+		{"Probe(netip.Addr{})", func() error { return h.Probe(netip.Addr{}) }},
+		{"RequestRaw(m2, {m1, invalid}, good)", func() error { return h.RequestRaw(m2, packet.Addr{MAC: m1}, good) }},
+		{"Reply(m2, good, {m1, ::ffff:192.168.0.2})", func() error {
+			return h.Reply(m2, good, packet.Addr{MAC: m1, IP: netip.MustParseAddr("::ffff:192.168.0.2")})
+		}},
+		{"RequestRaw(nil, good, good)", func() error { return h.RequestRaw(nil, good, good) }},
+		{"RequestRaw(m2, {nil MAC}, good)", func() error { return h.RequestRaw(m2, packet.Addr{IP: ip4(ipA)}, good) }},
+		{"Reply(m2, good, {3-byte MAC})", func() error { return h.Reply(m2, good, packet.Addr{MAC: net.HardwareAddr{1, 2, 3}, IP: ip4(ipA)}) }},
+		{"Request(netip.Addr{})", func() error { return h.Request(netip.Addr{}) }},
+		{"RequestTo(m2, fe80::1)", func() error { return h.RequestTo(m2, netip.MustParseAddr("fe80::1")) }},
+	}
+	for _, b := range bad {
+		// a caller-forged announcement first: whatever stays in the pooled buffer is the router binding
+		h.AnnounceTo(m1, lib.RouterIP4)
+		conn.Take()
+		var cerr error
+		panicked, _ := lib.Catch(func() { cerr = b.call() })
+		fs := conn.Take()
+		r.Stat("oracle.badargs", 1)
+		switch {
+		case panicked:
+			r.Viol("send-api-short-mac-panics", "public send call "+b.name+" panics (MAC[:6] on a MAC shorter than 6 bytes)", "oracleBadArgs: "+b.name)
+		case len(fs) > 0:
+			r.Viol("send-api-invalid-address-sends-stale-bytes", "public send call "+b.name+" hands a frame to the connection although an address is unusable; the address bytes are whatever the pooled buffer held ("+showOut(fs)+")", "oracleBadArgs: "+b.name)
+		case cerr == nil:
+			r.Viol("send-api-invalid-argument-no-error", "public send call "+b.name+" returns nil", "oracleBadArgs: "+b.name)
+		}
+	}
+}
+
 // ---------------------------------------------------------------- main
 
 func main() {
@@ -955,6 +1004,7 @@ func main() {
 		return
 	}
 	std := stdCfg().tok()
+	oracleBadArgs(r)
 
 	var wg sync.WaitGroup
 	// timed scenarios run alongside everything else (they mostly sleep)
